@@ -227,7 +227,7 @@ def r3(ctx, R, g, rx, loop, k):
 
 
 def r4(ctx, R, g, call, loop, line_var):
-    R.rule("C06.R4", "comments, preprocessor lines and character literals are excluded; a hit counts only when it resolves to the same entity", floor=6, confirmed=7)
+    R.rule("C06.R4", "comments, preprocessor lines and character literals are excluded; a hit counts only when it resolves to the same entity", floor=4, confirmed=7)
     F = ctx.facts(g, interproc=False)
     facts = F.at(call) or set()
     # (a) searched text = strip_comment(line)
